@@ -205,8 +205,11 @@ class Real:
         k = a['kind']
         A = eao.assets
         if k == 'orderbook':
-            od = {'start': [self.abs_time(o['s']) if self.tz else self.abs_time(o['s']) for o in a['orders']],
-                  'end': [self.abs_time(o['e']) for o in a['orders']],
+            # on zone-aware grids the order stamps may come in ANOTHER zone (the same instants, e.g. UTC stamps of an exchange feed)
+            oz = getattr(self, 'order_zone', None)
+            stamp = (lambda t: t.tz_convert(oz)) if (oz and self.tz) else (lambda t: t)
+            od = {'start': [stamp(self.abs_time(o['s'])) for o in a['orders']],
+                  'end': [stamp(self.abs_time(o['e'])) for o in a['orders']],
                   'capa': [float(o['capa']) / self.r for o in a['orders']],
                   'price': [float(o['price']) for o in a['orders']]}
             return A.OrderBook(name=nm, nodes=N[a['node']], wacc=self.asset_wacc(a), orders=od, full_exec=bool(a['fullexec']))
